@@ -145,6 +145,8 @@ STAGES = {
             ('dial-stall-long-context', 'Session', cfg(OP='"Dial"', N='1', MAXR='1', BUDGET='1', CAPSETS='{{}}', CLASSES='{"stall"}', VARIANTS='{"ctxdl"}',
                                                        AUTHTYPES='{"NOAUTH", "LOGIN-NOENC"}', AUTHLISTS='{{"LOGIN"}}')),
             ('dialandsend-stall-long-context', 'Session', cfg(OP='"DialAndSend"', N='1', MAXR='1', BUDGET='1', CAPSETS='{{}}', CLASSES='{"stall"}', VARIANTS='{"ctxdl"}')),
+            # an empty batch: the dial, then the QUIT - against a server that falls silent
+            ('dialandsend-empty-batch-stall', 'Session', cfg(OP='"DialAndSend"', N='0', MAXR='1', BUDGET='1', CAPSETS='{{}}', CLASSES='{"stall"}')),
             ('dial-stall', 'Session', cfg(OP='"Dial"', N='1', MAXR='1', BUDGET='1', CAPSETS='{{}}', CLASSES='{"stall"}',
                                           POLICIES='{"mandatory", "opportunistic", "none"}', STARTTLSADV='{TRUE}', HANDSHAKES='{"ok", "stall"}',
                                           AUTHTYPES='{"NOAUTH", "PLAIN-NOENC", "LOGIN-NOENC", "CRAM-MD5", "SCRAM-SHA-256", "XOAUTH2"}',
